@@ -1,6 +1,6 @@
 (* C17 — Key-correctness proofs accept good keys and reject bad ones. *)
 From Coq Require Import ZArith List String.
-From Gabi Require Import ModArith GoSem HashTool KeyProof KeyProofSound.
+From Gabi Require Import ModArith GoSem HashTool KeyProof KeyProofSound KeyProofExtract.
 Import ListNotations.
 Open Scope Z_scope.
 
@@ -106,3 +106,21 @@ Theorem vk_commitments_nonzero :
   forall n bases f1 f2 f3 p, vk_verify n bases f1 f2 f3 p = Ok true ->
   exists l, vk_list n bases p = Ok l /\ vk_nonzero n bases p l = Ok true.
 Proof. exact vk_commitments_nonzero_lem. Qed.
+
+(* Bad statements are rejected, algebraic core: special soundness WITH the witness, for EVERY representation
+   statement of the proof tree. The group has prime order, so the two-transcript relation can be divided by the
+   challenge difference: if one commitment T is opened for two challenges c > c' (c - c' invertible modulo the
+   group order, inverse u) by responses ps and ps', then the statement IsTrue of the secrets
+   u * (response' - response) mod order. Left-hand side and bases are assumed to have order dividing the group
+   order. What remains cited is the step from "a cheating prover answers one challenge" to "two challenges"
+   (forking / random oracle) and the composition over the proof tree. *)
+Theorem rep_special_sound :
+  forall g, 1 < gP g -> 0 < gOrd g ->
+  forall bs ps ps' c c' u s T lhs ts_v ts_v',
+  0 <= c' < c -> 0 <= u -> ((c - c') * u) mod gOrd g = 1 mod gOrd g ->
+  lhs_prod g bs (r_lhs s) 1 0 = Ok lhs -> powm (gP g) lhs (gOrd g) = 1 mod gP g ->
+  resolve_rhs g bs ps (r_rhs s) = Some ts_v -> resolve_rhs g bs ps' (r_rhs s) = Some ts_v' ->
+  Forall (fun t => powm (gP g) (fst (fst t)) (gOrd g) = 1 mod gP g) ts_v ->
+  rep_from_proof g bs ps c s = Ok T -> rep_from_proof g bs ps' c' s = Ok T ->
+  rep_is_true g bs (extract_env u (gOrd g) ps ps') s = Ok true.
+Proof. exact rep_special_sound_lem. Qed.
